@@ -130,7 +130,7 @@ func (f *gofile) mk(t *Type, tok string, constant bool, depth int) string {
 					continue
 				}
 				ft := resolveAlias(r.S, fl.T)
-				if ft.K == "named" && ft.Decl == t.Decl {
+				if ft.K == "tparam" || ft.K == "named" && ft.Decl == t.Decl {
 					continue
 				}
 				if d.Pkg != f.pkg && !exported(fl.Name) {
@@ -430,7 +430,15 @@ func (r *Renderer) Files() map[string]string {
 			n++
 			switch d.Form {
 			case "struct":
-				f.p("type %s struct {\n", d.Name)
+				tp := ""
+				if d.TParams > 0 {
+					var ps []string
+					for k := 0; k < d.TParams; k++ {
+						ps = append(ps, fmt.Sprintf("P%d", k))
+					}
+					tp = "[" + strings.Join(ps, ", ") + " any]"
+				}
+				f.p("type %s%s struct {\n", d.Name, tp)
 				for _, fl := range d.Fields {
 					tag := ""
 					if fl.Tag != "" {
@@ -459,8 +467,15 @@ func (r *Renderer) Files() map[string]string {
 			}
 			for _, m := range d.Methods {
 				recv := d.Name
+				if d.TParams > 0 {
+					var ps []string
+					for k := 0; k < d.TParams; k++ {
+						ps = append(ps, fmt.Sprintf("P%d", k))
+					}
+					recv += "[" + strings.Join(ps, ", ") + "]"
+				}
 				if m.PtrRecv {
-					recv = "*" + d.Name
+					recv = "*" + recv
 				}
 				f.p("func (%s) %s() int { return %d }\n\n", recv, m.Name, di)
 			}
